@@ -48,6 +48,7 @@ def apply_end(scopes, kind, spec):
 
 class C08(Check):
     ID = 'C08'
+    MAX_VIRTUAL = 3000     # (a run which cannot end is judged: a request never answered is a violation)
     TRACE_FILES = ('protocol/dispatcher.py', 'modulebase.py')
     TIERS = {'quick': {'runs': 9000, 'wall': 75}, 'thorough': {'runs': 300000, 'wall': 800}}
     RULE = ('case = 2 generated modules (poll threads changing values) + 0..2 extra driver tasks + 1..3 wire '
@@ -281,6 +282,18 @@ class C08(Check):
                               if rec else [] for rec in conns]
         ctx['exported'] = {m: [p.export for p in node.module(m).parameters.values() if p.export]
                            for m in node.secnode.export}
+
+    def deadlock_is_violation(self, sim, case, ctx):
+        """the run cannot end: a request that never got its reply (e.g. handler and update thread waiting for each
+        other's lock) is a violation; anything else is a problem of the harness"""
+        for cidx, rec in enumerate(ctx.get('conns') or ()):
+            for ev in (rec or {}).get('events', ()):
+                if ev['kind'] != 'close' and ev.get('reply') is None:
+                    waits = sim.failure[1] if sim.failure[0] == 'deadlock' else [(n, st, fr[-3:]) for n, st, fr in sim.failure[1]]
+                    return Violation('C08.no-reply', 'request-never-answered',
+                                     f'{sim.failure[0]}: conn {cidx} sent {ev["kind"]} {ev.get("spec") or ""} and never got a '
+                                     f'reply; tasks: {str(waits)[:1200]}')
+        return None
 
     # ------------------------------------------------------------------ oracle
     def observation(self, sim, case, ctx):
